@@ -78,9 +78,22 @@ impl TraitCodegen<'_> {
             let trait_fn_sig =
                 make_trait_fn_sig(&trait_fn.entrait_sig, self.sub_attributes, self.opts);
 
-            quote! {
-                #(#attrs)*
-                #trait_fn_sig;
+            match &trait_fn.default_body {
+                // The desugared form of an `async fn` with a default body
+                Some(body) if trait_fn.originally_async && trait_fn_sig.asyncness.is_none() => {
+                    quote! {
+                        #(#attrs)*
+                        #trait_fn_sig { async move #body }
+                    }
+                }
+                Some(body) => quote! {
+                    #(#attrs)*
+                    #trait_fn_sig #body
+                },
+                None => quote! {
+                    #(#attrs)*
+                    #trait_fn_sig;
+                },
             }
         });
 
